@@ -293,16 +293,25 @@ def rule_tempoform(ctx):
             hits = ha.a[0]
     yield ob(R, f, "tempo.detection:p-score", good, "P-score = reference_weight * hits[0] + (1 - reference_weight) * hits[1]")
     hit_ok = False
+
+    def hit_cmp(c):
+        # min(|ref_t - est| / ref_t) <= tol with ref_t the loop element over the reference tempi
+        if not (c.op == "cmp" and c.a[0] == "<=" and c.a[2].op == "param" and c.a[2].a[0] == "tol"):
+            return False
+        d = c.a[1]
+        if d.op == "call" and call_name(d) == "np.min" and d.a[1][0].op == "bin" and d.a[1][0].a[0] == "/":
+            num, den = d.a[1][0].a[1], d.a[1][0].a[2]
+            return den.op == "iter" and den.a[0].op == "param" and role_of(den.a[0].a[0]) == "R" and num.op == "call" and call_name(num) == "np.abs" and num.a[1][0].op == "bin" and num.a[1][0].a[0] == "-" and num.a[1][0].a[1] is den and num.a[1][0].a[2].op == "param" and role_of(num.a[1][0].a[2].a[0]) == "E"
+        return False
+
     if hits is not None:
+        # loop form: hits[i] = <cmp> for i, ref_t in enumerate(reference_tempi); comprehension form: one element per ref_t
         for x in tm.walk(hits):
-            if x.op == "upd" and x.a[1] == "setitem" and x.a[3].op == "cmp":
-                c = x.a[3]
-                if c.a[0] == "<=" and c.a[2].op == "param" and c.a[2].a[0] == "tol" and x.a[2].op == "idx":
-                    d = c.a[1]
-                    # min(|ref_t - est| / ref_t)
-                    if d.op == "call" and call_name(d) == "np.min" and d.a[1][0].op == "bin" and d.a[1][0].a[0] == "/":
-                        num, den = d.a[1][0].a[1], d.a[1][0].a[2]
-                        hit_ok = den.op == "iter" and num.op == "call" and call_name(num) == "np.abs" and num.a[1][0].op == "bin" and num.a[1][0].a[0] == "-" and num.a[1][0].a[1] is den and num.a[1][0].a[2].op == "param" and role_of(num.a[1][0].a[2].a[0]) == "E"
+            if x.op == "upd" and x.a[1] == "setitem" and x.a[2].op == "idx" and hit_cmp(x.a[3]):
+                hit_ok = True
+        if hits.op == "comp" and hits.a[0] == "list" and len(hits.a[2]) == 1 and hits.a[2][0].op == "param" and role_of(hits.a[2][0].a[0]) == "R" and not hits.a[3]:
+            alts = [a for a in resolve_ite_free(hits.a[1]) if not tm.is_const(a, False)]
+            hit_ok = hit_ok or (len(alts) == 1 and hit_cmp(alts[0]))
     yield ob(R, f, "tempo.detection:hit", hit_ok, "hits[i] = min over both estimates of |ref_i - est| / ref_i <= tol, for the i-th reference tempo")
 
 
@@ -314,7 +323,7 @@ def rule_contthresh(ctx):
     per = tm.param("continuity_period_threshold")
     pha = tm.param("continuity_phase_threshold")
     cm = [x for x in s.by_kind("cmp") if x.term.op == "cmp" and x.term.a[0] == "<" and x.term.a[2] in (per, pha)]
-    need(len(cm) >= 4, R, "continuity: threshold comparisons not found")
+    need(len(cm) >= 2, R, "continuity: threshold comparisons not found")
 
     def kind(t):
         """'period' for |1 - a/b| (or its 0/inf special cases), 'phase' for |a/b| (or 1/inf)."""
@@ -340,7 +349,11 @@ def rule_contthresh(ctx):
         got = kind(x.term.a[1])
         n[want] += 1
         yield ob(R, f, "beat.continuity:%s-threshold@%d" % (want, n[want]), got == {want}, "a %s error (%s) is compared with continuity_%s_threshold" % ("/".join(sorted(got)) or "constant", tm.show(x.term.a[1], 2), want), node=x.node)
-    yield ob(R, f, "beat.continuity:both-branches", n["period"] == n["phase"] and n["period"] >= 2, "first-beat and later-beat branches each test phase and period (%d + %d comparisons)" % (n["phase"], n["period"]))
+    # either each branch (first beat / later beats) has its own pair of tests, or one pair tests values that both
+    # branches computed (the comparison's operand then has one alternative per branch)
+    alts = min((len([y for y in resolve_ite_free(x.term.a[1]) if not (is_lit(y) or (y.op == "ext" and y.a[0] == "np.inf"))]) for x in cm), default=0)
+    both = n["period"] == n["phase"] and (n["period"] >= 2 or (n["period"] == 1 and alts >= 2))
+    yield ob(R, f, "beat.continuity:both-branches", both, "first-beat and later-beat branches each test phase and period (%d + %d comparisons, %d alternative(s) per operand)" % (n["phase"], n["period"], alts))
 
 
 def rule_overallform(ctx):
@@ -685,7 +698,7 @@ RULES = [
     ("C04.CMPKIND", 11, rule_cmpkind),
     ("C04.TEMPOFORM", 2, rule_tempoform),
     ("C04.FFORM", 6, rule_shared),
-    ("C04.CONTTHRESH", 5, rule_contthresh),
+    ("C04.CONTTHRESH", 3, rule_contthresh),
     ("C04.OVERALLFORM", 3, rule_overallform),
     ("C04.MATCHDEF", 20, rule_matchdef),
     ("C04.PCSFORM", 1, rule_pcsform),
